@@ -18,20 +18,27 @@ TIERS = {'quick': {'runs': 3000}, 'thorough': {'seconds': 600}}
 DET_PAIRS_PER_SLOT = 3
 RULE = ("one run = one wallet (1..2 accounts, one fee rate and one of the 7 strategy names or None) funded with a "
         "UTXO set that is scarce (fewer outputs than builds), tight or plentiful, of equal amounts (60 %) or mixed "
-        "amounts, and 2..12 concurrent Transaction.create tasks whose start offsets (all at once / staggered over "
-        "1 ms..0.3 s) and whose sqlite job completion delays come from the scheduler; each build pays 0.3..3.5 "
+        "amounts, and 2..12 concurrent builds whose start offsets (all at once / staggered over 1 ms..0.3 s) and "
+        "whose sqlite job completion delays come from the scheduler; each Transaction.create build pays 0.3..3.5 "
         "outputs' worth (so some need several inputs and some must fail), some carry pre-chosen inputs or are "
-        "input-only; afterwards a build is held to the end, released after 0..0.1 s or 'broadcast' (recorded as "
+        "input-only; afterwards a build is held to the end, released after 0..0.1 s or broadcast (recorded as "
         "sync would) while others are still selecting; concurrent get_utxos() observers and late funding "
-        "transactions run alongside. Non-trivial = at least two builds overlapped in time and one succeeded; "
-        "distinct = distinct event-trace digest.")
+        "transactions run alongside. Layered on that base scenario by independent PRNG streams: (fund, 35 % of "
+        "runs) 1..2 of the builds are real Account.fund calls - everything=True or amount=..., broadcast or preview; "
+        "(net, 30 %) broadcasts go through Ledger.broadcast / broadcast_or_release to a stub server that accepts or "
+        "refuses (RPCError) after 0..10 ms; (cancel, 30 %) 1..2 Transaction.create builds are cancelled with "
+        "task.cancel() when they submit their k-th database job (k = 1..7; the job itself had started and still "
+        "runs to its end, nothing is reordered or dropped). Non-trivial = at least two builds overlapped in time "
+        "and one succeeded; distinct = distinct event-trace digest.")
 COMPONENTS = {
-    'real': ['lbry.wallet.ledger.Ledger.get_spendable_utxos/_utxo_reservation_lock/reserve_outputs/release_tx',
+    'real': ['lbry.wallet.ledger.Ledger.get_spendable_utxos/_utxo_reservation_lock/reserve_outputs/release_tx/'
+             'broadcast/broadcast_or_release',
              'lbry.wallet.database.Database + AIOSQLite (select_txos is_reserved filter, sqlite coin chooser, '
              'reserve_outputs, save_transaction_io)', 'lbry.wallet.transaction.Transaction.create/sign',
-             'lbry.wallet.coinselection.CoinSelector', 'lbry.wallet.account.Account (HD, real signing)',
+             'lbry.wallet.coinselection.CoinSelector', 'lbry.wallet.account.Account (HD, real signing, Account.fund)',
              'lbry.wallet.wallet.Wallet', 'lbry.wallet.header.Headers(:memory:)'],
-    'stub': ['network (never connected; broadcast is modelled by recording the transaction as the sync path does)',
+    'stub': ['network: only `broadcast` is answered (accept / RPCError refusal after a scenario-given delay); an '
+             'accepted transaction is then recorded the way the sync path does',
              'thread/process pools (SimLoop inline executor; completion delays drawn by the scheduler)',
              'CoinSelector seed (drawn from the run PRNG instead of the kernel)',
              'Ledger constants network_name/checkpoints (simnet, no checkpoints)'],
@@ -40,16 +47,24 @@ ASSUMPTIONS = [
     'asyncio ready-queue order is FIFO (never permuted); interleavings come from executor completion times and '
     'task start offsets only',
     'sqlite commits are atomic; the single writer executor is FIFO as ThreadPoolExecutor(max_workers=1) is',
-    'cancellation of a build is not generated (CancelledError bypasses the release; outside the statement)',
-    'a build that raises anything (InsufficientFundsError or, on an unrepaired tree, the C03 TypeError) counts as '
-    'failed; the failure mode itself is judged by C03',
-    'pre-chosen inputs are reserved sequentially by the harness before the concurrent phase starts',
+    'a build that ends with CancelledError counts as failed (its caller gave up: task.cancel(), wait_for timeout). '
+    'The database job the cancelled build was awaiting had already started in the writer thread, so it still runs '
+    'to its end and commits - exactly what concurrent.futures does with a running job; only its result is dropped',
+    'a build that raises anything (InsufficientFundsError, a refused broadcast, or, on an unrepaired tree, the C03 '
+    'TypeError) counts as failed; the failure mode itself is judged by C03',
+    'pre-chosen inputs of Transaction.create builds are reserved sequentially by the harness before the concurrent '
+    'phase starts; Account.fund(everything=True) reads and reserves its inputs itself, concurrently',
+    'Account.fund builds are never cancelled (only Transaction.create builds are)',
 ]
 EXPECTED_PROBES = ['builds_overlapping', 'selection_waited_on_lock', 'build_ok', 'build_failed_insufficient',
                    'failed_while_holding', 'released_early', 'broadcast', 'reselected_after_release',
                    'observer_saw_held_absent', 'multi_input_build', 'multi_round_build', 'preselected_inputs',
                    'scarce_run', 'plentiful_run', 'equal_amounts_run', 'two_account_build',
-                   'selection_during_release', 'late_fund', 'all_released_check', 'late_job']
+                   'selection_during_release', 'late_fund', 'all_released_check', 'late_job',
+                   'fund_everything_build', 'fund_everything_preview', 'fund_everything_broadcast',
+                   'fund_amount_build', 'fund_reserved_while_other_selecting', 'net_accepted', 'net_refused',
+                   'refused_then_released_by_product', 'cancel_fired', 'cancel_after_reservation',
+                   'cancel_in_selection', 'cancel_not_reached', 'cancelled_while_holding']
 
 
 # ---------------------------------------------------------------------------------------------------
@@ -116,11 +131,46 @@ def gen(run_seed, tier):
         ops.append({'op': 'fund', 'at': round(r.uniform(0, horizon), 6), 'acct': r.randrange(n_accounts),
                     'outs': [[0, r.randrange(12), base if equal else W.gen_amount(r, rate, regime)]],
                     'height': r.choice([1, 40, 0])})
-    return {'family': 'conc', 'fee_per_byte': rate, 'fee_per_name_char': r.choice([0, 0, 200000]),
-            'strategy': r.choice(W.STRATEGIES), 'n_accounts': n_accounts, 'supply': supply, 'equal': equal,
-            'gaps': r.choice([[20, 6, 1], [20, 6, 1], [5, 2, 1], [3, 1, 1]]),
-            'exec_delay': r.choice([[0.0, 0.0], [0.0, 0.002], [0.0, 0.002], [0.001, 0.01], [0.0, 0.05]]),
-            'late_job_p': r.choice([0.0, 0.0, 0.05, 0.2]), 'ops': ops}
+    sc = {'family': 'conc', 'fee_per_byte': rate, 'fee_per_name_char': r.choice([0, 0, 200000]),
+          'strategy': r.choice(W.STRATEGIES), 'n_accounts': n_accounts, 'supply': supply, 'equal': equal,
+          'gaps': r.choice([[20, 6, 1], [20, 6, 1], [5, 2, 1], [3, 1, 1]]),
+          'exec_delay': r.choice([[0.0, 0.0], [0.0, 0.002], [0.0, 0.002], [0.001, 0.01], [0.0, 0.05]]),
+          'late_job_p': r.choice([0.0, 0.0, 0.05, 0.2]), 'ops': ops}
+    # ---- features layered on the base scenario; each owns its PRNG stream, so the base stays what it was ----
+    features = []
+    rf = stream('C14.gen.fund', run_seed)
+    room = 12 - n_builds
+    if rf.random() < 0.35 and room > 0:
+        features.append('fund')
+        for _ in range(min(room, rf.choice([1, 1, 2]))):
+            src = rf.randrange(n_accounts)
+            ops.append({'op': 'build', 'kind': rf.choice(['fund_everything', 'fund_everything', 'fund_amount']),
+                        'start': round(rf.uniform(0, spread), 6), 'funding': [src],
+                        'change': rf.choice([src, (src + 1) % n_accounts]), 'broadcast': rf.random() < 0.5,
+                        'bheight': rf.choice([0, -1, 50]),
+                        'amount': ['abs', max(1, int(typical * rf.choice([0.3, 0.9, 1.5, 2.2])))],
+                        'n_out': rf.choice([1, 1, 2])})
+    rn = stream('C14.gen.net', run_seed)
+    if rn.random() < 0.30:
+        hit = False
+        for op in ops:
+            if op.get('op') == 'build' and (op.get('broadcast') or
+                                            (op.get('kind', 'create') == 'create' and op.get('then') == 'broadcast')):
+                op['refuse'] = rn.random() < 0.5
+                op['net_delay'] = rn.choice([0.0, 0.0, 0.001, 0.01])
+                hit = True
+        if hit:
+            features.append('net')
+    rc = stream('C14.gen.cancel', run_seed)
+    if rc.random() < 0.30:
+        plain = [op for op in ops if op.get('op') == 'build' and op.get('kind', 'create') == 'create']
+        for op in rc.sample(plain, min(len(plain), rc.choice([1, 1, 2]))):
+            op['cancel_at'] = rc.randint(1, 7)
+        if plain:
+            features.append('cancel')
+    if features:
+        sc['family'] = 'conc+' + '+'.join(features)
+    return sc
 
 
 def shrink(sc):
@@ -143,6 +193,20 @@ def shrink(sc):
             for j in range(len(op['outs'])):
                 yield rep(dict(op, outs=op['outs'][:j] + op['outs'][j + 1:]))
         if op.get('op') == 'build':
+            if op.get('cancel_at'):
+                yield rep({k: v for k, v in op.items() if k != 'cancel_at'})
+                if op['cancel_at'] > 1:
+                    yield rep(dict(op, cancel_at=op['cancel_at'] - 1))
+            if 'refuse' in op:
+                yield rep({k: v for k, v in op.items() if k not in ('refuse', 'net_delay')})
+                if op.get('net_delay'):
+                    yield rep(dict(op, net_delay=0.0))
+            if op.get('kind') == 'fund_amount':
+                yield rep(dict(op, n_out=1))
+            if op.get('kind') in ('fund_everything', 'fund_amount'):
+                if op.get('start'):
+                    yield rep(dict(op, start=0.0))
+                continue
             if op.get('pre'):
                 yield rep(dict(op, pre=None))
             if op.get('sign', True):
@@ -168,6 +232,7 @@ def shrink(sc):
 def execute(scenario, keep_trace=False):
     env.import_lbry()
     from lbry.error import InsufficientFundsError
+    from lbry.wallet.rpc.jsonrpc import RPCError
 
     run = Run(scenario, keep_trace)
     ed = scenario.get('exec_delay') or [0.0, 0.002]
@@ -191,14 +256,41 @@ def execute(scenario, keep_trace=False):
 
     held = {}            # outpoint -> build id currently holding it (broadcast builds hold for ever)
     hold_seq = {}        # outpoint -> number of times it was acquired
+    last_holder = {}     # outpoint -> build id that acquired it last (attribution of a leak)
+    orphan = {}          # outpoint -> build id: reserved by a database job whose awaiting build was cancelled
+    foreign_freed = {}   # outpoint -> kind of the build that released it while ANOTHER build held it
     was_released = set()
     releasing = [0]
     selecting = [0]
     stats = {'overlap': 0, 'ok': 0}
+    victims = {}         # build id -> k: cancel when the build submits its k-th database job
 
     def acquire(op, bid):
         held[op] = bid
         hold_seq[op] = hold_seq.get(op, 0) + 1
+        last_holder[op] = bid
+
+    def kind_of(bid):
+        hb = sim.builds.get(bid)
+        return hb.kind if hb is not None else 'unknown'
+
+    def acquired(b, ops, what):
+        """Outpoints were handed to build b (selection returned / its own reservation returned)."""
+        bid = b.bid if b is not None else -1
+        for op in ops:
+            if op in held:
+                holder = held[op]
+                hb = sim.builds.get(holder)
+                run.violation('C14.double_select', f'{what} of build {bid} ({kind_of(bid)}) at '
+                              f't={loop.elapsed():.6f} returned {op} which build {holder} ({kind_of(holder)}, '
+                              f'{hb.state if hb else "?"}) holds since its own selection; strategy {sim.strategy}; '
+                              f'freed meanwhile by: {foreign_freed.get(op, "nobody")}',
+                              holder='same_build' if holder == bid else (hb.state if hb else 'unknown'),
+                              via=kind_of(bid), holder_via=kind_of(holder), freed_by=foreign_freed.get(op, 'nobody'))
+                continue
+            if op in was_released:
+                run.probes['reselected_after_release'] += 1
+            acquire(op, bid)
 
     def on_select_return(b, call, ops):
         bid = b.bid if b is not None else -1
@@ -206,20 +298,18 @@ def execute(scenario, keep_trace=False):
             run.probes['selection_waited_on_lock'] += 1
         if releasing[0]:
             run.probes['selection_during_release'] += 1
-        for op in ops:
-            if op in held:
-                holder = held[op]
-                hb = sim.builds.get(holder)
-                run.violation('C14.double_select', f'selection call of build {bid} (deficit {call["amount"]}) at '
-                              f't={loop.elapsed():.6f} returned {op} which build {holder} '
-                              f'({hb.state if hb else "?"}) holds since its own selection; strategy {sim.strategy}',
-                              holder='same_build' if holder == bid else (hb.state if hb else 'unknown'))
-                continue
-            if op in was_released:
-                run.probes['reselected_after_release'] += 1
-            acquire(op, bid)
+        acquired(b, ops, f'selection call (deficit {call["amount"]})')
         run.ev('select', bid, call['amount'], len(ops), [op[:10] for op in ops][:6])
     sim.on_select_return = on_select_return
+
+    def on_reserve_return(b, ops):
+        # a caller that picks and reserves outputs by itself (Account.fund(everything=True))
+        bid = b.bid if b is not None else -1
+        if selecting[0] > 1:
+            run.probes['fund_reserved_while_other_selecting'] += 1
+        acquired(b, ops, 'own read + reserve_outputs')
+        run.ev('reserve', bid, len(ops), [op[:10] for op in ops][:6])
+    sim.on_reserve_return = on_reserve_return
 
     def on_release_call(b, ops):
         # the hold ends when the release is *requested* by the holding build (the row changes somewhere
@@ -230,6 +320,9 @@ def execute(scenario, keep_trace=False):
             if held.get(op) == b.bid:
                 del held[op]
                 was_released.add(op)
+            elif op in held:
+                foreign_freed[op] = b.kind
+                run.probes['release_of_foreign_hold'] += 1
     sim.on_release_call = on_release_call
 
     def drop_holds_of(b):
@@ -248,39 +341,88 @@ def execute(scenario, keep_trace=False):
             if bad:
                 hb = sim.builds.get(held[bad[0]])
                 run.violation('C14.held_visible', f'{tag}: get_utxos() of account {i} returned {bad[:3]} while '
-                              f'build {held[bad[0]]} ({hb.state if hb else "?"}) held it during the whole call',
-                              holder=hb.state if hb else 'unknown')
+                              f'build {held[bad[0]]} ({hb.state if hb else "?"}) held it during the whole call; '
+                              f'freed meanwhile by: {foreign_freed.get(bad[0], "nobody")}',
+                              holder=hb.state if hb else 'unknown', holder_via=kind_of(held[bad[0]]),
+                              freed_by=foreign_freed.get(bad[0], 'nobody'))
                 return True
             run.ev(tag, i, len(got), len(snap))
         return False
 
-    # ---- tasks --------------------------------------------------------------------------------------
-    async def build_task(b):
-        op = b.spec
-        await asyncio.sleep(max(0.0, float(op.get('start', 0.0))))
-        if run.violations:
-            return
-        if sim.in_flight:
-            run.probes['builds_overlapping'] += 1
-            stats['overlap'] += 1
-        selecting[0] += 1
-        try:
-            await sim.create(b)
-        finally:
-            selecting[0] -= 1
-        if b.state == 'failed':
-            if isinstance(b.exc, InsufficientFundsError):
-                run.probes['build_failed_insufficient'] += 1
-                run.faults['insufficient_funds'] += 1
+    # ---- fault: cancellation of a build when it submits its k-th database job --------------------------------
+    orig_run_in_executor = loop.run_in_executor
+
+    def run_in_executor(executor, func, *args):
+        b = W.CURRENT_BUILD.get()
+        if b is None or b.bid not in victims or b.cancel_expected or b.state != 'running':
+            return orig_run_in_executor(executor, func, *args)
+        b.jobs += 1
+        if b.jobs != victims[b.bid]:
+            return orig_run_in_executor(executor, func, *args)
+        # The writer thread is idle when a job is submitted (AIOSQLite serialises them), so the job has
+        # started by the time the cancellation arrives: concurrent.futures cannot cancel it, it runs to
+        # its end and commits; only the awaiting coroutine is unwound.
+        b.cancel_expected = True
+        in_selection = bool(b.calls) and b.calls[-1]['returned'] is None and b.calls[-1]['exc'] is None
+
+        def job(*a):
+            before = sim.db_reserved_unspent()
+            try:
+                return func(*a)
+            finally:
+                newly = sim.db_reserved_unspent() - before
+                if newly:
+                    b.cancel_during_reserve = True
+                    for op in sorted(newly):
+                        orphan[op] = b.bid
+        inner = orig_run_in_executor(executor, job, *args)
+        outer = loop.create_future()
+
+        def relay(f):
+            if outer.cancelled():
+                if not f.cancelled():
+                    f.exception()          # retrieved: the result of a job nobody waits for any more
+                return
+            if f.cancelled():
+                outer.cancel()
+            elif f.exception() is not None:
+                outer.set_exception(f.exception())
             else:
-                run.probes['build_failed_other_' + type(b.exc).__name__] += 1
-                run.faults['non_insufficient_failure'] += 1
-            if b.touched:
-                run.probes['failed_while_holding'] += 1
-            drop_holds_of(b)            # a failed build holds nothing any more (leak is checked at the end)
-            sim.settle_model_after_create(b)
-            run.ev('build', b.bid, 'fail', type(b.exc).__name__, [c['amount'] for c in b.calls])
-            return
+                outer.set_result(f.result())
+        inner.add_done_callback(relay)
+        loop.call_soon(b.task.cancel)
+        run.faults['build_cancelled'] += 1
+        run.probes['cancel_fired'] += 1
+        run.probes['cancel_in_selection' if in_selection else
+                   'cancel_after_reservation' if b.touched else 'cancel_before_reservation'] += 1
+        run.ev('cancel', b.bid, b.jobs, in_selection)
+        return outer
+
+    # ---- tasks --------------------------------------------------------------------------------------
+    def failed(b):
+        if b.cancelled:
+            b.end = 'cancelled'
+            if b.touched or b.cancel_during_reserve:
+                run.probes['cancelled_while_holding'] += 1
+        elif isinstance(b.exc, InsufficientFundsError):
+            b.end = 'failed_insufficient'
+            run.probes['build_failed_insufficient'] += 1
+            run.faults['insufficient_funds'] += 1
+        elif isinstance(b.exc, RPCError):
+            b.end = 'broadcast_refused'
+            run.probes['net_refused'] += 1
+            run.faults['broadcast_refused'] += 1
+        else:
+            b.end = 'failed_other'
+            run.probes['build_failed_other_' + type(b.exc).__name__] += 1
+            run.faults['non_insufficient_failure'] += 1
+        if b.touched:
+            run.probes['failed_while_holding'] += 1
+        drop_holds_of(b)            # a failed build holds nothing any more (a leak is checked at the end)
+        sim.settle_model_after_create(b)
+        run.ev('build', b.bid, b.kind, 'fail', type(b.exc).__name__, [c['amount'] for c in b.calls])
+
+    def succeeded(b):
         if b.parsed is None:
             raise RuntimeError(f'build {b.bid} returned an unserialisable transaction: {b.parse_error!r}')
         p = b.parsed
@@ -294,10 +436,37 @@ def execute(scenario, keep_trace=False):
             run.probes['preselected_inputs'] += 1
         if len({sim.utxos[i['op']].acct for i in p['ins'] if i['op'] in sim.utxos}) == 2:
             run.probes['two_account_build'] += 1
-        run.ev('build', b.bid, 'ok', b.tx.id[:16], [i['op'][:10] for i in p['ins']][:8], len(p['outs']))
+        run.ev('build', b.bid, b.kind, 'ok', b.tx.id[:16], [i['op'][:10] for i in p['ins']][:8], len(p['outs']))
+
+    async def record_broadcast(b, op):
+        if selecting[0]:
+            run.faults['broadcast_while_others_select'] += 1
+        made = await sim.broadcast(b, int(op.get('bheight', 0)))
+        b.end = 'broadcast'
+        run.probes['broadcast'] += 1
+        run.ev('broadcast', b.bid, b.tx.height, [(u.op[:10], u.amount) for u in made])
+
+    async def build_task(b):
+        op = b.spec
+        await asyncio.sleep(max(0.0, float(op.get('start', 0.0))))
+        if run.violations:
+            return
+        if sim.in_flight:
+            run.probes['builds_overlapping'] += 1
+            stats['overlap'] += 1
+        selecting[0] += 1
+        try:
+            await sim.create(b)
+        finally:
+            selecting[0] -= 1
+        if b.bid in victims and not b.cancel_expected:
+            run.probes['cancel_not_reached'] += 1
+        if b.state == 'failed':
+            return failed(b)
+        succeeded(b)
         # an input the build spends without having been handed it by a selection (or as pre-chosen) would be
         # outside the map; record the hold so the disjointness check sees it
-        for i in p['ins']:
+        for i in b.parsed['ins']:
             if i['op'] not in held:
                 acquire(i['op'], b.bid)
         sim.settle_model_after_create(b)
@@ -316,13 +485,54 @@ def execute(scenario, keep_trace=False):
                 await sim.release(b)
             finally:
                 releasing[0] -= 1
+            b.end = 'released'
             run.ev('released', b.bid)
+        elif 'refuse' in op:
+            # the daemon's way: Ledger.broadcast_or_release over the (stub) network
+            accepted = await sim.broadcast_or_release(b)
+            if accepted:
+                run.probes['net_accepted'] += 1
+                await record_broadcast(b, op)
+            else:
+                b.end = 'broadcast_refused_released'
+                run.probes['net_refused'] += 1
+                run.probes['refused_then_released_by_product'] += 1
+                run.faults['broadcast_refused'] += 1
+                run.ev('refused', b.bid)
         else:
-            if selecting[0]:
-                run.faults['broadcast_while_others_select'] += 1
-            made = await sim.broadcast(b, int(op.get('bheight', 0)))
-            run.probes['broadcast'] += 1
-            run.ev('broadcast', b.bid, b.tx.height, [(u.op[:10], u.amount) for u in made])
+            await record_broadcast(b, op)
+
+    async def fund_task(b):
+        """The build is a real Account.fund call: it selects (everything=True: reads and reserves by itself),
+        builds, and broadcasts or releases (preview) inside the product."""
+        op = b.spec
+        await asyncio.sleep(max(0.0, float(op.get('start', 0.0))))
+        if run.violations:
+            return
+        if sim.in_flight:
+            run.probes['builds_overlapping'] += 1
+            stats['overlap'] += 1
+        run.probes[b.kind + '_build'] += 1
+        selecting[0] += 1
+        try:
+            await sim.account_fund(b)
+        finally:
+            selecting[0] -= 1
+        if b.state == 'failed':
+            return failed(b)
+        succeeded(b)
+        if b.state == 'released':           # preview: Account.fund released the transaction itself
+            b.end = 'released'
+            run.probes[b.kind + '_preview'] += 1
+            run.ev('released', b.bid)
+            return
+        run.probes[b.kind + '_broadcast'] += 1
+        run.probes['net_accepted'] += 1
+        for i in b.parsed['ins']:
+            if i['op'] not in held:
+                acquire(i['op'], b.bid)
+        sim.settle_model_after_create(b)
+        await record_broadcast(b, op)
 
     async def observe_task(op, n):
         await asyncio.sleep(max(0.0, float(op.get('at', 0.0))))
@@ -336,6 +546,26 @@ def execute(scenario, keep_trace=False):
         run.faults['concurrent_fund'] += 1
         run.ev('late_fund', n, [(u.op[:10], u.amount) for u in made])
 
+    def leak_site(ops):
+        """Which build the leaked outpoints go back to, and how that build ended."""
+        prio = {'cancelled': 0, 'broadcast_refused': 1, 'failed_other': 2, 'failed_insufficient': 3}
+        best = None
+        for op in sorted(ops):
+            for bid in (orphan.get(op), last_holder.get(op)):
+                hb = sim.builds.get(bid)
+                if hb is None:
+                    continue
+                key = (prio.get(hb.end, 9), hb.bid)
+                if best is None or key < best[0]:
+                    best = (key, hb)
+        if best is None:
+            return {'cause': 'unknown', 'via': 'unknown', 'cancel_during_reserve': False}
+        hb = best[1]
+        mine = [op for op in ops if orphan.get(op) == hb.bid or last_holder.get(op) == hb.bid]
+        only_orphans = bool(mine) and all(orphan.get(op) == hb.bid and last_holder.get(op) != hb.bid for op in mine)
+        return {'cause': hb.end or hb.state, 'via': hb.kind,
+                'cancel_during_reserve': bool(hb.cancelled and only_orphans)}
+
     async def driver():
         await sim.open()
         ops = scenario['ops']
@@ -347,11 +577,19 @@ def execute(scenario, keep_trace=False):
         for n, op in enumerate(ops):
             if op.get('op') == 'build' and len(builds) < 12:
                 b = W.Build(n, op)
-                await sim.prepare(b)
-                for u in b.pre:
-                    acquire(u.op, b.bid)
+                if b.kind in ('fund_everything', 'fund_amount'):
+                    sim.prepare_fund(b)
+                else:
+                    b.kind = 'create'
+                    await sim.prepare(b)
+                    for u in b.pre:
+                        acquire(u.op, b.bid)
+                    if op.get('cancel_at'):
+                        victims[b.bid] = max(1, int(op['cancel_at']))
                 builds.append(b)
-        tasks = [asyncio.ensure_future(build_task(b)) for b in builds]
+        if victims:
+            loop.run_in_executor = run_in_executor      # instance attribute: this run only
+        tasks = [asyncio.ensure_future(fund_task(b) if b.kind != 'create' else build_task(b)) for b in builds]
         for n, op in enumerate(ops):
             if op.get('op') == 'observe':
                 tasks.append(asyncio.ensure_future(observe_task(op, n)))
@@ -371,7 +609,9 @@ def execute(scenario, keep_trace=False):
                 for i in b.parsed['ins']:
                     if i['op'] in owner:
                         return run.violation('C14.double_select', f'builds {owner[i["op"]]} and {b.bid} both spend '
-                                             f'{i["op"]} (found at the end)', holder='final_disjointness')
+                                             f'{i["op"]} (found at the end)', holder='final_disjointness',
+                                             via=b.kind, holder_via=kind_of(owner[i['op']]),
+                                             freed_by=foreign_freed.get(i['op'], 'nobody'))
                     owner[i['op']] = b.bid
         if await visible_check('final-held'):
             return
@@ -379,6 +619,7 @@ def execute(scenario, keep_trace=False):
         for b in builds:
             if b.state == 'held':
                 await sim.release(b)
+                b.end = 'released'
                 run.ev('final_release', b.bid)
         run.probes['all_released_check'] += 1
         got = {}
@@ -388,14 +629,15 @@ def execute(scenario, keep_trace=False):
         missing = sorted(u.op for u in expected if u.op not in got[u.acct])
         leaked = sorted(sim.db_reserved_unspent())
         if missing or leaked:
-            states = sorted((b.bid, b.state) for b in builds)
+            states = sorted((b.bid, b.kind, b.end or b.state) for b in builds)
             return run.violation('C14.leaked_reservation', f'after every build was released, failed or broadcast '
                                  f'{len(missing)} unspent outputs are not returned by get_utxos() {missing[:3]} and '
-                                 f'{len(leaked)} unspent rows have is_reserved=1 {leaked[:3]}; builds: {states}')
+                                 f'{len(leaked)} unspent rows have is_reserved=1 {leaked[:3]}; builds: {states}',
+                                 **leak_site(sorted(set(missing) | set(leaked))))
         spent_visible = sorted(op for i in got for op in got[i] if op in sim.utxos and sim.utxos[op].spent)
         if spent_visible:
             return run.violation('C14.held_visible', f'outputs spent by a broadcast build are returned by get_utxos(): '
-                                 f'{spent_visible[:3]}', holder='broadcast')
+                                 f'{spent_visible[:3]}', holder='broadcast', holder_via='unknown', freed_by='nobody')
         run.ev('final', sorted((i, len(v)) for i, v in got.items()), len(expected))
         await sim.close()
 
